@@ -1,7 +1,7 @@
 import A2Verif.Lemmas.FsCpmModify
 import A2Verif.Lemmas.FsCpmRename3
 import A2Verif.Lemmas.FsCpmPut2
-import A2Verif.Lemmas.FsCpmPutAbs3
+import A2Verif.Lemmas.FsCpmPutAbs4
 import A2Verif.Lemmas.FsCpmQuery
 import A2Verif.Lemmas.FsCpmFormat
 import A2Verif.Lemmas.FsCpmCheck
@@ -27,15 +27,12 @@ the user area of `01:X`, `+1:X`, `1:X:Y`, a second file of the same name can be 
 false (defect found by this proof; direct oracle `user-prefix-alias-refused` in `harness/src/fam/fs_cpm.rs`).
 `put`: every `put` that reports an error — an early refusal (duplicate name, disk full, directory full, bad name) or a
 failure in the middle of the write loops — preserves `Inv` and leaves every file and the listing as they were
-(`put_error_step`); a successful `put` writes data into blocks that were neither reserved nor referenced and saves a
-directory that still holds every old file entry in its place (`put_success_frame_partial`).
-A successful `put` of a file image in the class `PutArgsOk` (on a consistent disk parameter block, `DpbPut`): the new
-directory entries are characterised exactly (`put_success_entries`: header, one entry per physical extent that holds a chunk,
-extent numbers, pointer slots against chunk indices, data blocks, record counts giving CP/M's length rule, all pointers
-pairwise different) and the invariant holds afterwards (`put_success_inv`).
-Partial: `stepOk … (.put …) true` for a successful `put` (the assembly of the reading of the new file from
-`put_success_entries`) and the refinement of `protect`, `unprotect` are not proved here (see `design/FsCpm.md`); they are tied to
-the real code by the byte-exact harness tie.
+(`put_error_step`).  A successful `put` of a file image in the class `PutArgsOk` (on a consistent disk parameter block,
+`DpbPut`): the new directory entries are characterised exactly (`put_success_entries`), the invariant holds afterwards
+(`put_success_inv`) and the step is an abstract `put` of the stored chunks under the canonical path (`put_step`: the file
+reads back chunk for chunk, zero-padded to the block size, with the length CP/M records, from blocks that were free, every
+other file untouched).  Hence `put` is an operation of the histories (`Op.put`) and C01 holds for the concrete model
+(`cpm_put_reads_back`).
 -/
 namespace A2Verif.FsCpm
 open A2Verif.Fs.Cpm
@@ -133,9 +130,21 @@ in `PutArgsOk` is read by the independent reader as a well-formed, leak-free vol
 theorem put_success_inv {d : Dpb} {r r' : Raw} {f : FImg} {now : Bytes} (h : Inv d r) (hr : ResvOk d) (hd : DpbPut d)
     (ha : PutArgsOk d f) (hop : Fs.Cpm.put d r f now = (.ok (), r')) : Inv d r' := put_success_inv' h hr hd ha hop
 
+/-- **a successful `put` refines the abstract `put`** (C01, C02, C03, C04, C05 for `put`): if `put` of a file image in
+`PutArgsOk` reports success, the invariant holds afterwards and the transition from the reading before to the reading after
+is an abstract `put` of `putChunks f` (the stored chunks, ascending index) under the path `canon f.fullPath` — the target was
+absent, is present afterwards as a file whose chunks are the stored ones at the same indices (each beginning with the stored
+bytes, padded to the block size), whose length is the stored length as CP/M records it (`eofRule`: CP/M 3 exact, CP/M 2 rounded
+up to 128), whose blocks were free before; every other file is unchanged. -/
+theorem put_step {d : Dpb} {r r' : Raw} {f : FImg} {now : Bytes} (h : Inv d r) (hr : ResvOk d) (hd : DpbPut d)
+    (ha : PutArgsOk d f) (hop : Fs.Cpm.put d r f now = (.ok (), r')) :
+    Inv d r' ∧ stepOk (cpmParams d) (volOf d r) (.put (canon f.fullPath) (putChunks f) f.eof 0 0) true (volOf d r') = true :=
+  put_success_refines h hr hd ha hop
+
 /-! ## operations of the concrete model -/
 
 inductive Op where
+  | put (f : FImg) (now : Bytes)
   | delete (xname : Bytes)
   | rename (old new : Bytes)
   | lock (xname : Bytes)
@@ -144,6 +153,7 @@ inductive Op where
 
 /-- run one operation on an image: (did it report success, the image afterwards) -/
 def Op.run (d : Dpb) (r : Raw) : Op → Bool × Raw
+  | .put f now => (okB (Fs.Cpm.put d r f now).1, (Fs.Cpm.put d r f now).2)
   | .delete x => (okB (Fs.Cpm.delete d r x).1, (Fs.Cpm.delete d r x).2)
   | .rename o n => (okB (Fs.Cpm.rename d r o n).1, (Fs.Cpm.rename d r o n).2)
   | .lock x => (okB (Fs.Cpm.lock d r x).1, (Fs.Cpm.lock d r x).2)
@@ -152,17 +162,43 @@ def Op.run (d : Dpb) (r : Raw) : Op → Bool × Raw
 
 /-- the abstract operation a concrete one stands for (`canon`: user prefix `0:` dropped, upper case, `.` appended to a bare name) -/
 def Op.abs : Op → FsOp
+  | .put f _ => .put (canon f.fullPath) (putChunks f) f.eof 0 0
   | .delete x => .delete (canon x)
   | .rename o n => .rename (canon o) (canon n)
   | .lock x => .lock (canon x)
   | .unlock x => .unlock (canon x)
   | .retype x _ => .retype (canon x)
 
+/-- the arguments the refinement theorem covers: file images in `PutArgsOk` (the other operations: any argument) -/
+def Op.Ok (d : Dpb) : Op → Prop
+  | .put f _ => PutArgsOk d f
+  | _ => True
+
+instance (d : Dpb) (op : Op) : Decidable (op.Ok d) := by
+  cases op <;> unfold Op.Ok <;> infer_instance
+
+/-- the disk parameter block is one the proof covers: `is_reserved` agrees with the directory block list, an entry has
+`extent_capacity / block_size` pointer slots (all a2kit disk kinds; checked by `decide` for the harness configurations below) -/
+structure DpbGood (d : Dpb) : Prop where
+  resv : ResvOk d
+  put : DpbPut d
+
 /-- **Refinement, one step**: every operation of the concrete model preserves the invariant and is a transition
 the abstract specification allows between the readings before and after -/
-theorem step_refines {d : Dpb} {r : Raw} (h : Inv d r) (op : Op) :
+theorem step_refines {d : Dpb} {r : Raw} (h : Inv d r) (hg : DpbGood d) (op : Op) (hok : op.Ok d) :
     Inv d (op.run d r).2 ∧ stepOk (cpmParams d) (volOf d r) op.abs (op.run d r).1 (volOf d (op.run d r).2) = true := by
   cases op with
+  | put f now =>
+    show Inv d (Fs.Cpm.put d r f now).2 ∧ stepOk (cpmParams d) (volOf d r) (.put (canon f.fullPath) (putChunks f) f.eof 0 0)
+      (okB (Fs.Cpm.put d r f now).1) (volOf d (Fs.Cpm.put d r f now).2) = true
+    cases hres : (Fs.Cpm.put d r f now).1 with
+    | ok u =>
+      cases u
+      exact put_step h hg.resv hg.put hok (Prod.ext hres rfl)
+    | error e =>
+      obtain ⟨a, _, c⟩ := put_error_step (res := .error e) h hg.resv (Prod.ext hres rfl) rfl
+        (.put (canon f.fullPath) (putChunks f) f.eof 0 0)
+      exact ⟨a, c⟩
   | delete x => exact delete_refines h rfl
   | rename o n => exact rename_refines h rfl
   | lock x => exact lock_refines h rfl
@@ -191,19 +227,19 @@ def finalRaw (d : Dpb) : Raw → List Op → Raw
   | r, [] => r
   | r, op :: ops => finalRaw d (op.run d r).2 ops
 
-/-- **Refinement, histories**: every history of concrete operations, started from an image satisfying the
-invariant, is a valid trace of the abstract specification; the invariant holds at the end and the final
-reading is the reading of the final image -/
-theorem history_refines {d : Dpb} : ∀ (ops : List Op) {r : Raw}, Inv d r →
+/-- **Refinement, histories**: every history of concrete operations (`put`, `delete`, `rename`, `lock`, `unlock`, `retype`;
+successful and refused), started from an image satisfying the invariant, is a valid trace of the abstract specification; the
+invariant holds at the end and the final reading is the reading of the final image -/
+theorem history_refines {d : Dpb} (hg : DpbGood d) : ∀ (ops : List Op) {r : Raw}, Inv d r → (∀ op ∈ ops, op.Ok d) →
     validFrom (cpmParams d) (volOf d r) (trace d r ops) ∧ Inv d (finalRaw d r ops) ∧
     finalVol (volOf d r) (trace d r ops) = volOf d (finalRaw d r ops) := by
   intro ops
   induction ops with
-  | nil => intro r h; exact ⟨trivial, h, rfl⟩
+  | nil => intro r h _; exact ⟨trivial, h, rfl⟩
   | cons op ops ih =>
-    intro r h
-    obtain ⟨h1, h2⟩ := step_refines h op
-    obtain ⟨a, b, c⟩ := ih h1
+    intro r h hok
+    obtain ⟨h1, h2⟩ := step_refines h hg op (hok op List.mem_cons_self)
+    obtain ⟨a, b, c⟩ := ih h1 (fun o ho => hok o (List.mem_cons_of_mem _ ho))
     refine ⟨⟨h2, a⟩, b, ?_⟩
     show finalVol (volOf d r) (⟨op.abs, (op.run d r).1, volOf d (op.run d r).2⟩ :: trace d (op.run d r).2 ops) = _
     rw [finalVol_cons]
@@ -220,48 +256,71 @@ theorem mem_trace {d : Dpb} : ∀ {ops : List Op} {r : Raw} {s : Step}, s ∈ tr
     · obtain ⟨o, ho, e⟩ := ih hs
       exact ⟨o, List.mem_cons_of_mem _ ho, e⟩
 
-theorem mem_trace_inv {d : Dpb} : ∀ {ops : List Op} {r : Raw} {s : Step}, Inv d r → s ∈ trace d r ops →
-    ∃ r', Inv d r' ∧ s.post = volOf d r' := by
+theorem mem_trace_inv {d : Dpb} (hg : DpbGood d) : ∀ {ops : List Op} {r : Raw} {s : Step}, Inv d r → (∀ op ∈ ops, op.Ok d) →
+    s ∈ trace d r ops → ∃ r', Inv d r' ∧ s.post = volOf d r' := by
   intro ops
   induction ops with
-  | nil => intro r s _ hs; cases hs
+  | nil => intro r s _ _ hs; cases hs
   | cons op ops ih =>
-    intro r s h hs
-    obtain ⟨h1, _⟩ := step_refines h op
+    intro r s h hok hs
+    obtain ⟨h1, _⟩ := step_refines h hg op (hok op List.mem_cons_self)
     rcases List.mem_cons.1 hs with rfl | hs
     · exact ⟨_, h1, rfl⟩
-    · exact ih h1 hs
+    · exact ih h1 (fun o ho => hok o (List.mem_cons_of_mem _ ho)) hs
 
-/-! ## the history-level theorems of C02 … C05, for the concrete CP/M model -/
+/-! ## the history-level theorems of C01 … C05, for the concrete CP/M model -/
+
+/-- C01 for the concrete model ("once accepted by put, is returned … for as long as it is not deleted"): after a `put` the
+model accepted, followed by ANY history of concrete operations (further puts, deletes, renames, lock/unlock/retype — of this
+file or others, successful or refused) in which no delete and no rename *of this file* succeeded, the reading of the final image
+holds the file under `canon f.fullPath`: every stored chunk is there at its index, beginning with the stored bytes; there is no
+other chunk; the length is the stored one as CP/M records it. -/
+theorem cpm_put_reads_back {d : Dpb} (hg : DpbGood d) {r r1 : Raw} {f : FImg} {now : Bytes} (h : Inv d r) (ha : PutArgsOk d f)
+    (hput : Fs.Cpm.put d r f now = (.ok (), r1)) {ops : List Op} (hok : ∀ op ∈ ops, op.Ok d)
+    (hnd : ∀ s ∈ trace d r1 ops, s.ok = true → s.op ≠ .delete (canon f.fullPath) ∧ ∀ q, s.op ≠ .rename (canon f.fullPath) q) :
+    ∃ g, (volOf d (finalRaw d r1 ops)).lookup (canon f.fullPath) = some g ∧ g.isDir = false ∧
+      g.eof = (cpmParams d).eofRule f.eof ∧
+      (∀ k bytes, (k, bytes) ∈ f.chunks → ∃ data, (k, data) ∈ g.chunks ∧ bytes <+: data) ∧
+      (∀ k data, (k, data) ∈ g.chunks → ∃ bytes, (k, bytes) ∈ f.chunks ∧ bytes <+: data) := by
+  obtain ⟨h1, hstep⟩ := put_step h hg.resv hg.put ha hput
+  obtain ⟨hv, _, heq⟩ := history_refines hg ops h1 hok
+  obtain ⟨g, hl, hc, he, hdir⟩ := C01.stored_content_kept_until_deleted hstep hv hnd
+  rw [heq] at hl
+  refine ⟨g, hl, hdir, he, ?_, ?_⟩
+  · intro k bytes hm
+    exact C01.stored_chunk_comes_back hc (by unfold putChunks; exact List.mem_mergeSort.2 hm)
+  · intro k data hm
+    obtain ⟨bytes, hb, hp⟩ := C01.no_other_chunk hc hm
+    exact ⟨bytes, by unfold putChunks at hb; exact List.mem_mergeSort.1 hb, hp⟩
 
 /-- C02 for the concrete model: a file that no operation of the history names is found bit-identical
 (content, length, flags, blocks) in the reading of the final image -/
-theorem cpm_bystanders_survive {d : Dpb} {r : Raw} (h : Inv d r) {ops : List Op}
-    {q : Bytes} {g : FileRec} (hg : (volOf d r).lookup q = some g) (hq : ∀ op ∈ ops, q ∉ op.abs.targets) :
+theorem cpm_bystanders_survive {d : Dpb} (hg : DpbGood d) {r : Raw} (h : Inv d r) {ops : List Op} (hok : ∀ op ∈ ops, op.Ok d)
+    {q : Bytes} {g : FileRec} (hgq : (volOf d r).lookup q = some g) (hq : ∀ op ∈ ops, q ∉ op.abs.targets) :
     (volOf d (finalRaw d r ops)).lookup q = some g := by
-  obtain ⟨hv, _, heq⟩ := history_refines ops h
+  obtain ⟨hv, _, heq⟩ := history_refines hg ops h hok
   have hd : g.isDir = false := by
-    have hm := (lookup_some hg).1
+    have hm := (lookup_some hgq).1
     unfold volOf mkVol filesOf at hm
     simp only [List.mem_map] at hm
     obtain ⟨k, _, rfl⟩ := hm
     rfl
   have := C02.bystanders_survive_history hv (fun s hs => by
     obtain ⟨op, ho, e⟩ := mem_trace hs
-    rw [e]; exact hq op ho) hg hd
+    rw [e]; exact hq op ho) hgq hd
   rw [heq] at this
   exact this
 
 /-- C03 for the concrete model: the image after **every** step of every history, successful or refused,
 is read by the independent reader as a well-formed volume -/
-theorem cpm_states_well_formed {d : Dpb} {r : Raw} (h : Inv d r) {ops : List Op} :
+theorem cpm_states_well_formed {d : Dpb} (hg : DpbGood d) {r : Raw} (h : Inv d r) {ops : List Op} (hok : ∀ op ∈ ops, op.Ok d) :
     (∀ s ∈ trace d r ops, s.post.wfB = true) ∧
     Read.Cpm.read (finalRaw d r ops) d = .ok (volOf d (finalRaw d r ops)) ∧ (volOf d (finalRaw d r ops)).wfB = true := by
-  obtain ⟨hv, hfin, _⟩ := history_refines ops h
+  obtain ⟨hv, hfin, _⟩ := history_refines hg ops h hok
   exact ⟨C03.every_state_well_formed hv, (inv_reads hfin).1, volOf_wf hfin⟩
 
 /-- C04 for the concrete model: in every state of every history `free + owned + reserved = size` -/
-theorem cpm_free_accounting {d : Dpb} {r : Raw} (h : Inv d r) {ops : List Op} :
+theorem cpm_free_accounting {d : Dpb} (hg : DpbGood d) {r : Raw} (h : Inv d r) {ops : List Op} (hok : ∀ op ∈ ops, op.Ok d) :
     (∀ s ∈ trace d r ops, s.post.free + s.post.allOwned.length + s.post.sys.length = s.post.hi - s.post.lo) ∧
     (volOf d (finalRaw d r ops)).free + (volOf d (finalRaw d r ops)).allOwned.length + (volOf d (finalRaw d r ops)).sys.length =
       d.dsm + 1 := by
@@ -274,58 +333,119 @@ theorem cpm_free_accounting {d : Dpb} {r : Raw} (h : Inv d r) {ops : List Op} :
     rw [h'.dpb.prefix_, List.mem_range] at this
     have := h'.dpb.inRange
     exact ⟨Nat.zero_le _, by show u < d.dsm + 1; omega⟩
-  obtain ⟨_, hfin, _⟩ := history_refines ops h
+  obtain ⟨_, hfin, _⟩ := history_refines hg ops h hok
   refine ⟨fun s hs => ?_, key hfin⟩
-  obtain ⟨r', h', e⟩ := mem_trace_inv h hs
+  obtain ⟨r', h', e⟩ := mem_trace_inv hg h hok hs
   rw [e]; exact key h'
 
 /-- C05 for the concrete model: the names the reader lists after a history are exactly the fold of the history
 over the initial listing, and they are pairwise different -/
-theorem cpm_listing_is_history_fold {d : Dpb} {r : Raw} (h : Inv d r) {ops : List Op} (q : Bytes) :
+theorem cpm_listing_is_history_fold {d : Dpb} (hg : DpbGood d) {r : Raw} (h : Inv d r) {ops : List Op} (hok : ∀ op ∈ ops, op.Ok d)
+    (q : Bytes) :
     (q ∈ (volOf d (finalRaw d r ops)).paths ↔ q ∈ foldPaths (volOf d r).paths (trace d r ops)) ∧
     (volOf d (finalRaw d r ops)).paths.Nodup := by
-  obtain ⟨hv, hfin, heq⟩ := history_refines ops h
+  obtain ⟨hv, hfin, heq⟩ := history_refines hg ops h hok
   have := C05.listing_is_history_fold' hv q
   rw [heq] at this
   exact ⟨this, wfB_paths_nodup (volOf_wf hfin)⟩
 
+/-- does a successful step with this operation take the file away from path `p`? -/
+def removesB (p : Bytes) : FsOp → Bool
+  | .delete q => q == p
+  | .rename q _ => q == p
+  | _ => false
+
+/-- the hypothesis of `cpm_put_reads_back` as a computation on the trace: no successful delete/rename of `p` -/
+def keptB (p : Bytes) (tr : List Step) : Bool := tr.all (fun s => !s.ok || !removesB p s.op)
+
+theorem keptB_spec {p : Bytes} {tr : List Step} (h : keptB p tr = true) :
+    ∀ s ∈ tr, s.ok = true → s.op ≠ .delete p ∧ ∀ q, s.op ≠ .rename p q := by
+  intro s hs hok
+  unfold keptB at h
+  rw [List.all_eq_true] at h
+  have := h s hs
+  rw [hok] at this
+  simp only [Bool.not_true, Bool.false_or, Bool.not_eq_true'] at this
+  refine ⟨fun e => ?_, fun q e => ?_⟩
+  · rw [e] at this; simp [removesB] at this
+  · rw [e] at this; simp [removesB] at this
+
 /-! ## non-vacuity: a concrete image and a concrete history
 
-`exD`: a 16-block CP/M 2 volume (1K blocks, 32 directory entries in block 0).  `exImg`: formatted by the model, then
+`exD`: a 16-block CP/M 2 volume (1K blocks, 8 directory entries in block 0).  `exImg`: formatted by the model, then
 `a.txt` (two chunks, lower-case name, user 0) and `3:B` (one chunk, user 3) stored by the model's `put`.  The
-invariant of `exImg` is established by the executable check `invB` (sound: `invB_sound`).  `exOps`: lock `A.TXT`,
-a refused delete and a refused rename of it, unlock (lower-case spelling with `0:` prefix), retype to `sys`, a refused
+invariant of `exImg` is established by the executable check `invB` (sound: `invB_sound`).  `exOps`: put `c.dat` (sparse: chunks
+0 and 2), a refused put of the existing `a.txt`, a refused put of a file larger than the free space, lock `A.TXT`,
+a refused delete of it, unlock (lower-case spelling with `0:` prefix), retype to `sys`, a refused
 rename onto the existing `3:B`, a rename into user area 7 (`7:c.d`), a refused delete of the old name, delete of the new
-name, delete `3:b` -/
+name -/
 
-def exD : Dpb := { bsh := 3, exm := 0, dsm := 15, drm := 31, al0 := 128, al1 := 0, v3 := false }
+def exD : Dpb := { bsh := 3, exm := 0, dsm := 15, drm := 7, al0 := 128, al1 := 0, v3 := false }
 
 def exBlank : Raw := { unitLen := 1024, units := Array.replicate 16 [] }
 def exA : FImg := { chunkLen := 1024, fullPath := [97, 46, 116, 120, 116], fsType := [84, 88, 84], access := List.replicate 11 32,
                     eof := 1030, chunks := [(1, [9, 8, 7, 6, 5, 4]), (0, List.replicate 1024 3)] }
 def exB : FImg := { chunkLen := 1024, fullPath := [51, 58, 66], fsType := [32, 32, 32], access := List.replicate 11 32,
                     eof := 5, chunks := [(0, [1, 2, 3, 4, 5])] }
-def exImg : Raw :=
-  (Fs.Cpm.put exD (Fs.Cpm.put exD (Fs.Cpm.format exD exBlank [] none).2 exA [0, 0, 0, 0]).2 exB [0, 0, 0, 0]).2
+/-- `c.dat`, sparse: chunks 0 and 2, length 2050 -/
+def exC : FImg := { chunkLen := 1024, fullPath := [99, 46, 100, 97, 116], fsType := [68, 65, 84], access := List.replicate 11 32,
+                    eof := 2050, chunks := [(2, [7, 7]), (0, [1, 2, 3])] }
+/-- 14 chunks: more than the free space of `exImg` -/
+def exBig : FImg := { chunkLen := 1024, fullPath := [66, 73, 71], fsType := [32, 32, 32], access := List.replicate 11 32,
+                      eof := 13 * 1024 + 1, chunks := (List.range 14).map (fun i => (i, [i])) }
+def exImg0 : Raw := (Fs.Cpm.format exD exBlank [] none).2
+def exImg1 : Raw := (Fs.Cpm.put exD exImg0 exA [0, 0, 0, 0]).2
+def exImg : Raw := (Fs.Cpm.put exD exImg1 exB [0, 0, 0, 0]).2
 
 def exOps : List Op :=
-  [.lock [65, 46, 84, 88, 84], .delete [65, 46, 84, 88, 84], .rename [65, 46, 84, 88, 84] [67], .unlock [48, 58, 97, 46, 116, 120, 116],
+  [.put exC [0, 0, 0, 0], .put exA [0, 0, 0, 0], .put exBig [0, 0, 0, 0],
+   .lock [65, 46, 84, 88, 84], .delete [65, 46, 84, 88, 84], .unlock [48, 58, 97, 46, 116, 120, 116],
    .retype [65, 46, 84, 88, 84] [115, 121, 115], .rename [97, 46, 116, 120, 116] [51, 58, 66], .rename [65, 46, 84, 88, 84] [55, 58, 99, 46, 100],
-   .delete [65, 46, 84, 88, 84], .delete [55, 58, 67, 46, 68], .delete [51, 58, 98]]
+   .delete [65, 46, 84, 88, 84], .delete [55, 58, 67, 46, 68]]
+
+/-- put `3:B`, lock `A.TXT`, a refused delete of it, unlock, delete `3:b` -/
+def exOps1 : List Op :=
+  [.put exB [0, 0, 0, 0], .lock [65, 46, 84, 88, 84], .delete [65, 46, 84, 88, 84], .unlock [97, 46, 116, 120, 116], .delete [51, 58, 98]]
+
+theorem exGood : DpbGood exD := ⟨by decide +kernel, by decide⟩
 
 set_option maxRecDepth 100000 in
 theorem exImg_inv : Inv exD exImg := invB_sound (by decide +kernel)
 
 set_option maxRecDepth 100000 in
+theorem exImg0_inv : Inv exD exImg0 := invB_sound (by decide +kernel)
+
+/-- every `put` of the example history is in the class the refinement theorem covers -/
+theorem exOps_ok : ∀ op ∈ exOps, op.Ok exD := by decide +kernel
+
+set_option maxRecDepth 100000 in
 /-- what the concrete model answers on the example history -/
-example : (trace exD exImg exOps).map (·.ok) = [true, false, false, true, true, false, true, false, true, true] := by decide +kernel
+example : (trace exD exImg exOps).map (·.ok) =
+    [true, false, false, true, false, true, true, false, true, false, true] := by decide +kernel
 
 set_option maxRecDepth 100000 in
 /-- the example image holds the two files under their canonical paths -/
 example : (volOf exD exImg).paths = [[65, 46, 84, 88, 84], [51, 58, 66, 46]] := by decide +kernel
 
-example : validFrom (cpmParams exD) (volOf exD exImg) (trace exD exImg exOps) := (history_refines exOps exImg_inv).1
-example : ∀ s ∈ trace exD exImg exOps, s.post.wfB = true := (cpm_states_well_formed exImg_inv).1
+example : validFrom (cpmParams exD) (volOf exD exImg) (trace exD exImg exOps) := (history_refines exGood exOps exImg_inv exOps_ok).1
+example : ∀ s ∈ trace exD exImg exOps, s.post.wfB = true := (cpm_states_well_formed exGood exImg_inv exOps_ok).1
+
+set_option maxRecDepth 100000 in
+/-- non-vacuity of `put_step` / `cpm_put_reads_back`: the model accepts `put a.txt` on the freshly formatted example volume;
+the history `exOps1` that follows (put `3:B`, lock, a refused delete of the locked file, unlock, delete of the
+other file) has no successful delete/rename of `A.TXT` — so `A.TXT` is read back at the end -/
+example : ∃ g, (volOf exD (finalRaw exD exImg1 exOps1)).lookup
+      (canon exA.fullPath) = some g ∧ g.isDir = false ∧ g.eof = (cpmParams exD).eofRule exA.eof ∧
+      (∀ k bytes, (k, bytes) ∈ exA.chunks → ∃ data, (k, data) ∈ g.chunks ∧ bytes <+: data) ∧
+      (∀ k data, (k, data) ∈ g.chunks → ∃ bytes, (k, bytes) ∈ exA.chunks ∧ bytes <+: data) :=
+  cpm_put_reads_back exGood exImg0_inv (by decide +kernel)
+    (Prod.ext (by
+      have : okB (Fs.Cpm.put exD exImg0 exA [0, 0, 0, 0]).1 = true := by decide +kernel
+      revert this
+      cases (Fs.Cpm.put exD exImg0 exA [0, 0, 0, 0]).1 with
+      | ok u => intro _; rfl
+      | error e => intro h; cases h) rfl)
+    (by decide +kernel) (keptB_spec (by decide +kernel))
 
 set_option maxRecDepth 100000 in
 /-- `format` of a CP/M 3 volume with label and time stamps reports success, hence (`format_establishes_inv`) the result satisfies `Inv` -/
@@ -339,9 +459,25 @@ example : Inv { exD with v3 := true } (Fs.Cpm.format { exD with v3 := true } exB
       | ok u => intro _; rfl
       | error e => intro h; cases h) rfl)
 
-/-- non-vacuity of `put_success_entries` / `put_success_inv`: the example parameter block and both example file images
-satisfy the hypotheses, and the model's `put` of `exA` on the freshly formatted image reports success -/
-example : DpbPut exD ∧ ResvOk exD ∧ PutArgsOk exD exA ∧ PutArgsOk exD exB := by decide +kernel
+/-- non-vacuity of `put_success_entries` / `put_success_inv` / `put_step`: the example parameter block and the example file
+images satisfy the hypotheses -/
+example : DpbPut exD ∧ ResvOk exD ∧ PutArgsOk exD exA ∧ PutArgsOk exD exB ∧ PutArgsOk exD exC := by decide +kernel
+
+/-- a file image as the harness generates them (chunk keys pairwise different, chunks of block size, the last possibly shorter,
+`eof` inside the last chunk) is in `PutArgsOk` for each of the harness's disk parameter blocks — EXM = 0 and EXM = 1 (Kaypro),
+CP/M 2 and CP/M 3 — and for a parameter block with 16-bit block pointers (DSM ≥ 256, EXM = 1, 4K blocks) -/
+def hImg (bs : Nat) (n : Nat) : FImg :=
+  { chunkLen := bs, fullPath := [72, 46, 66], fsType := [66, 32, 32], access := List.replicate 11 0, eof := (n - 1) * bs + 17,
+    chunks := (List.range n).map (fun i => (i, if i + 1 = n then List.replicate 17 5 else List.replicate bs (i % 251))) }
+
+example : PutArgsOk { bsh := 3, exm := 0, dsm := 127, drm := 47, al0 := 0xC0, al1 := 0, v3 := false } (hImg 1024 20) := by decide +kernel
+example : PutArgsOk { bsh := 3, exm := 0, dsm := 184, drm := 63, al0 := 0xC0, al1 := 0, v3 := false } (hImg 1024 33) := by decide +kernel
+example : PutArgsOk { bsh := 4, exm := 1, dsm := 196, drm := 63, al0 := 0xC0, al1 := 0, v3 := false } (hImg 2048 17) := by decide +kernel
+example : PutArgsOk { bsh := 3, exm := 0, dsm := 174, drm := 63, al0 := 0xC0, al1 := 0, v3 := true } (hImg 1024 16) := by decide +kernel
+example : PutArgsOk { bsh := 5, exm := 1, dsm := 400, drm := 127, al0 := 0x80, al1 := 0, v3 := false } (hImg 4096 9) := by decide +kernel
+example : DpbGood { bsh := 5, exm := 1, dsm := 400, drm := 127, al0 := 0x80, al1 := 0, v3 := false } ∧
+    DpbOk { bsh := 5, exm := 1, dsm := 400, drm := 127, al0 := 0x80, al1 := 0, v3 := false } :=
+  ⟨⟨by decide +kernel, by decide⟩, by decide⟩
 
 set_option maxRecDepth 100000 in
 example : okB (Fs.Cpm.put exD (Fs.Cpm.format exD exBlank [] none).2 exA [0, 0, 0, 0]).1 = true := by decide +kernel
